@@ -115,14 +115,20 @@ enum Op {
     BatchFail,
     Checkpoint(u64),
 }
+/// a byte string as one little-endian numeral: (B len value), far cheaper for Coq to parse than a list of numerals
+fn cb(b: &[u8]) -> String {
+    if b.is_empty() { return "[]".into(); }
+    let rev: Vec<u8> = b.iter().rev().cloned().collect();
+    format!("(B {}%nat {})", b.len(), n_of_be(&rev))
+}
 fn pc(v: &[u8]) -> Vec<u8> { postcard::to_stdvec(&v.to_vec()).unwrap() }
 fn coq_change(c: &Change) -> String {
-    format!("({}, {})", coq_bytes(c.0.as_bytes()), coq_opt(c.1.as_ref().map(|v| coq_bytes(&pc(v)))))
+    format!("({}, {})", cb(c.0.as_bytes()), coq_opt(c.1.as_ref().map(|v| cb(&pc(v)))))
 }
 fn coq_op(o: &Op) -> String {
     match o {
-        Op::Upsert(ts, k, v) => format!("OUpsert {} {} {}", ts, coq_bytes(k.as_bytes()), coq_bytes(&pc(v))),
-        Op::Delete(ts, k) => format!("ODelete {} {}", ts, coq_bytes(k.as_bytes())),
+        Op::Upsert(ts, k, v) => format!("OUpsert {} {} {}", ts, cb(k.as_bytes()), cb(&pc(v))),
+        Op::Delete(ts, k) => format!("ODelete {} {}", ts, cb(k.as_bytes())),
         Op::Batch(ts, cs) => format!("OBatch {} {}", ts, coq_list(cs.iter().map(coq_change))),
         Op::BatchFail => "OBatchFail".into(),
         Op::Checkpoint(ts) => format!("OCheckpoint {}", ts),
@@ -150,7 +156,7 @@ struct Obs {
     events: Vec<&'static str>,
 }
 fn coq_state(st: &[(Vec<u8>, Vec<u8>)]) -> String {
-    coq_list(st.iter().map(|(k, v)| format!("({}, {})", coq_bytes(k), coq_bytes(v))))
+    coq_list(st.iter().map(|(k, v)| format!("({}, {})", cb(k), cb(v))))
 }
 fn coq_stats(o: &Obs) -> String {
     format!("mkStats {} {} {} {} {}", o.recovered, o.failed, o.snaps, o.wals, coq_list(o.events.iter().map(|e| e.to_string())))
@@ -327,16 +333,16 @@ fn on_crash_point(label: &'static str) {
 
 // ---------------------------------------------------------------- operation generator
 fn gen_key(rng: &mut Rng, nkeys: u64) -> String {
-    match rng.below(24) {
-        0 => String::new(),
-        1 => "k\u{2}".to_string(),
-        2 => "é".to_string(),
-        3 => "k".repeat(130),
+    match rng.below(48) {
+        0 | 1 => String::new(),
+        2 | 3 => "k\u{2}".to_string(),
+        4 | 5 => "é".to_string(),
+        6 => "k".repeat(130),
         _ => format!("k{}", rng.below(nkeys)),
     }
 }
 fn gen_val(rng: &mut Rng) -> Vec<u8> {
-    match rng.below(12) { 0 => vec![], 1 => rng.bytes(200), 2 => vec![1, 7], _ => { let n = rng.range(1, 3) as usize; rng.bytes(n) } }
+    match rng.below(36) { 0..=2 => vec![], 3 => rng.bytes(200), 4..=6 => vec![1, 7], _ => { let n = rng.range(1, 3) as usize; rng.bytes(n) } }
 }
 fn gen_changes(rng: &mut Rng, nkeys: u64) -> Vec<Change> {
     let n = rng.range(0, 4);
@@ -453,8 +459,8 @@ impl Plan {
 }
 
 fn coq_cycle(c: &Cycle) -> String {
-    format!("({}, {}, ({}%nat, {}%nat, {}%nat))", coq_list(c.ops.iter().map(coq_op)),
-        coq_list(c.probes.iter().map(|(i, a, b, o, _)| format!("({}%nat, {}%nat, {}%nat, {})", i, a, b, coq_obs(o)))), c.next.0, c.next.1, c.next.2)
+    format!("({}, {}, ({}, {}%nat, {}%nat))", coq_list(c.ops.iter().map(coq_op)),
+        coq_list(c.probes.iter().map(|(i, a, b, o, _)| format!("({}, {}%nat, {}%nat, {})", i, a, b, coq_obs(o)))), c.next.0, c.next.1, c.next.2)
 }
 fn json_cycle(c: &Cycle) -> serde_json::Value {
     json!({"ops": c.ops.iter().map(json_op).collect::<Vec<_>>(), "continues_from": [c.next.0, c.next.1, c.next.2],
@@ -583,7 +589,7 @@ fn file_name(k: u8, n: u64) -> String {
     match k { 0 => "state.wal".into(), 1 => format!("wal.{:020}.wal", n), 2 => format!("snapshot.{}.snap", n), _ => format!("snapshot.{}.tmp", n) }
 }
 fn coq_files(fs: &[(u8, u64, Vec<u8>)]) -> String {
-    coq_list(fs.iter().map(|(k, n, b)| format!("({}, {}, {})", k, n, coq_bytes(b))))
+    coq_list(fs.iter().map(|(k, n, b)| format!("({}, {}, {})", k, n, cb(b))))
 }
 fn table_for(key: &[u8], sets: &[&[(u8, u64, Vec<u8>)]]) -> Vec<(Vec<u8>, Vec<u8>)> {
     let mut t: BTreeMap<Vec<u8>, Vec<u8>> = BTreeMap::new();
@@ -775,7 +781,7 @@ async fn mode_c07(args: &Args, sum: &mut Summary) {
         }
         let header = format!("{}\nDefinition base_ops := {}.\nDefinition pristine : files := {}.\nDefinition base_tbl : list (bytes * bytes) := {}.",
             HEADER, coq_list(base.ops.iter().map(coq_op)), coq_files(&base.files),
-            coq_list(table_for(&base.key, &[&base.files]).iter().map(|(f, t)| format!("({}, {})", coq_bytes(f), coq_bytes(t)))));
+            coq_list(table_for(&base.key, &[&base.files]).iter().map(|(f, t)| format!("({}, {})", cb(f), cb(t)))));
         let mut w = CaseWriter::new(&args.out, &format!("cases_c07_b{:03}", h), &header, "c07_case", "check_c07", "prop_c07", 40);
         for m in mutations(&base, &other, &mut r, per_kind) {
             let md = root.join("m");
@@ -808,7 +814,7 @@ async fn mode_c07(args: &Args, sum: &mut Summary) {
             let Some(o) = observe(&md, ls, sum, &what).await else { continue };
             let extra = table_for(&base.key, &[&m.files]);
             let term = format!("(base_ops, base_tbl ++ {}, pristine, {}, ({}, {}, {}), {})",
-                coq_list(extra.iter().map(|(f, t)| format!("({}, {})", coq_bytes(f), coq_bytes(t)))), coq_files(&m.files),
+                coq_list(extra.iter().map(|(f, t)| format!("({}, {})", cb(f), cb(t)))), coq_files(&m.files),
                 coq_state(&o.state), o.next, coq_stats(&o),
                 coq_opt(m.survivors.as_ref().map(|v| coq_list(v.iter().map(|i| format!("{}%nat", i))))));
             w.push(id, term);
